@@ -16,7 +16,7 @@ RULE = ("file names over an alphabet with letters of both cases, digits, space a
         "nontrivial = pattern matches some but not all subjects")
 
 # `*` and `?` are ordinary characters for LIKE, `%` and `_` for glob: all four occur in names and patterns
-ALPHA = list("abAB1 .+()[]{}|^$-,'#~&_%*?") + ["\\", "é", "Ж", "\n"]
+ALPHA = list("abAB1 .+()[]{}|^$-,'#~&_%*?<>=!:;@`\"") + ["\\", "é", "Ж", "\n"]
 WILD = {"eq": "*?", "ne": "*?", "like": "%_", "notlike": "%_"}
 
 
